@@ -63,7 +63,7 @@ func (i *impl) open(qos, pre string) string {
 	i.b = broker.New()
 	i.b.Auto["downack"] = true
 	i.b.Register()
-	conn, err := iscp.Connect("mem", broker.TransportName, iscp.WithConnPingInterval(20*time.Millisecond), iscp.WithConnPingTimeout(2*time.Second))
+	conn, err := iscp.Connect("mem", broker.TransportName, iscp.WithConnPingInterval(20*time.Millisecond), iscp.WithConnPingTimeout(400*time.Millisecond))
 	if err != nil {
 		return "err connect"
 	}
@@ -336,6 +336,15 @@ func (i *impl) exec(h *lp.H, op string) string {
 			}
 		}
 		if !okk {
+			i.b.Lock()
+			nInc, dials := len(i.b.Incs), i.b.Dials
+			i.b.Unlock()
+			var last []string
+			lg := i.b.LogFrom(0)
+			for k := len(lg) - 1; k >= 0 && len(last) < 6; k-- {
+				last = append(last, fmt.Sprintf("%d:%T", lg[k].Inc, lg[k].Msg))
+			}
+			h.Extra["resume-incomplete"] = fmt.Sprintf("status=%d incs=%d dials=%d curIsOld=%v resumedEv=%d->%d last=%v", i.conn.VerifConnStatus(), nInc, dials, i.b.Cur() == old, ev0, i.resumedEv, last)
 			return "resume-incomplete"
 		}
 		return "resumed alias=" + same
@@ -392,6 +401,82 @@ func (i *impl) oracle(h *lp.H) {
 		if _, ok := i.upAlias[up]; !ok && i.acked[k] > 0 {
 			h.Violate(fmt.Sprintf("upstream %d reached the reader (chunk %s, acknowledged) but was never announced under an alias", up, k))
 		}
+	}
+}
+
+// lateAck (oracle only): a downstream whose acknowledgements are flushed rarely (10 s) survives an outage, consumes n chunks and is
+// closed: the final acknowledgement, with all n results, must reach the broker before the close request.
+func lateAck(h *lp.H, n int) {
+	b := broker.New()
+	b.Auto["downack"] = true
+	b.Register()
+	conn, err := iscp.Connect("mem", broker.TransportName, iscp.WithConnPingInterval(20*time.Millisecond), iscp.WithConnPingTimeout(400*time.Millisecond))
+	if err != nil {
+		h.Violate("lateack: cannot connect")
+		return
+	}
+	defer func() {
+		c, cancel := context.WithTimeout(context.Background(), 300*time.Millisecond)
+		conn.Close(c)
+		cancel()
+	}()
+	resumed := make(chan struct{}, 4)
+	ctx, cancel := context.WithTimeout(context.Background(), 10*time.Second)
+	defer cancel()
+	d, err := conn.OpenDownstream(ctx, []*message.DownstreamFilter{{SourceNodeID: "n0", DataFilters: []*message.DataFilter{{Name: "#", Type: "#"}}}},
+		iscp.WithDownstreamQoS(message.QoSReliable), iscp.WithDownstreamAckFlushInterval(10*time.Second),
+		iscp.WithDownstreamResumedEventHandler(iscp.DownstreamResumedEventHandlerFunc(func(*iscp.DownstreamResumedEvent) { resumed <- struct{}{} })))
+	if err != nil {
+		h.Violate("lateack: cannot open a downstream: " + err.Error())
+		return
+	}
+	var alias uint32 = 1
+	b.Lock()
+	if ds := b.Downs[d.ID]; ds != nil {
+		alias = ds.Alias
+	}
+	b.Unlock()
+	b.Cur().Kill()
+	select {
+	case <-resumed:
+	case <-time.After(watchdog):
+		h.Violate("lateack: the downstream did not resume after the outage")
+		return
+	}
+	for k := 1; k <= n; k++ {
+		b.Cur().Send(&message.DownstreamChunk{StreamIDAlias: alias, UpstreamOrAlias: upInfo(1), StreamChunk: &message.StreamChunk{SequenceNumber: uint32(k),
+			DataPointGroups: []*message.DataPointGroup{{DataIDOrAlias: dp.ID(1), DataPoints: dp.ParsePoints("1/01")}}}, ExtensionFields: &message.DownstreamChunkExtensionFields{}})
+	}
+	for k := 1; k <= n; k++ {
+		if _, err := d.ReadDataPoints(ctx); err != nil {
+			h.Violate(fmt.Sprintf("lateack: chunk %d of %d did not reach the reader after the resume: %v", k, n, err))
+			return
+		}
+	}
+	cctx, ccancel := context.WithTimeout(context.Background(), 2*time.Second)
+	err = d.Close(cctx)
+	ccancel()
+	if err != nil {
+		h.Violate("lateack: Close failed: " + err.Error())
+		return
+	}
+	results, order := 0, "no-close-request"
+	for _, r := range b.LogFrom(0) {
+		switch m := r.Msg.(type) {
+		case *message.DownstreamChunkAck:
+			if order == "no-close-request" {
+				results += len(m.Results)
+			} else {
+				order = "ack-after-close"
+			}
+		case *message.DownstreamCloseRequest:
+			if order == "no-close-request" {
+				order = "closed"
+			}
+		}
+	}
+	if order != "closed" || results != n {
+		h.Violate(fmt.Sprintf("after an outage and resume, %d chunks were consumed and the stream closed: %d results were acknowledged before the close request (%s)", n, results, order))
 	}
 }
 
@@ -454,6 +539,7 @@ func main() {
 					upRef = fmt.Sprintf("A%d", 40+rng.Intn(5)) // never announced
 					willErr = true
 				}
+				upErr := willErr
 				var gs []string
 				var fullIDs []int
 				for g := rng.Intn(3); g >= 0; g-- {
@@ -475,7 +561,15 @@ func main() {
 					}
 					gs = append(gs, ref+":"+strings.Join(pts, ";"))
 				}
-				do(fmt.Sprintf("chunk %s %d %s", upRef, seq, strings.Join(gs, "|")))
+				if rng.Intn(8) == 0 { // a chunk that carries a sequence number and no data point group
+					gs, fullIDs = nil, nil
+					willErr = upErr
+				}
+				gw := strings.Join(gs, "|")
+				if len(gs) == 0 {
+					gw = "_"
+				}
+				do(fmt.Sprintf("chunk %s %d %s", upRef, seq, gw))
 				pending++
 				up := 0
 				if upRef[0] == 'U' {
@@ -536,5 +630,17 @@ func main() {
 		if h.Distinct(fmt.Sprintf("%s/%s/%s", qos, pre, sig)) && strings.Count(sig, "r") >= 2 {
 			h.Sample()
 		}
+	}
+	for k := 0; k < 2 && !h.TooMany(); k++ {
+		h.Case(fmt.Sprintf("lateack %d", k))
+		if im.conn != nil {
+			c, cancel := context.WithTimeout(context.Background(), 200*time.Millisecond)
+			im.conn.Close(c)
+			cancel()
+			im.conn, im.down = nil, nil
+		}
+		lateAck(h, 30+270*k)
+		h.Op(fmt.Sprintf("scenario lateack %d", k), "-")
+		h.Distinct(fmt.Sprintf("lateack/%d", k))
 	}
 }
